@@ -39,6 +39,18 @@ def tokenL (c : List Nat) (start : Nat) : Option Nat → List Nat
   | some k => (c.drop start).take k
   | none => c.drop start
 
+/-- `replace(needle, replacement)`: left to right, non-overlapping (`fuel` bounds the number of matches) -/
+def replaceAux (n : List Nat) (r : List Byte) : Nat → List Nat → List Byte
+  | 0, h => h.map some
+  | fuel + 1, h =>
+    match strstrL h n with
+    | none => h.map some
+    | some k => (h.take k).map some ++ r ++ replaceAux n r fuel (h.drop (k + n.length))
+
+/-- an empty needle replaces nothing (fixes/str/0003) -/
+def replaceAll (n : List Nat) (r : List Byte) (h : List Nat) : List Byte :=
+  if n = [] then h.map some else replaceAux n r (h.length + 1) h
+
 /-- the new value of the target variable; `none` = not specified here (see Props.lean, OPEN) -/
 def newVal (regs : Nat → List Nat) (σ : Nat → List Byte) : Op → Option (List Byte)
   | .ctorEmpty _ => some []
@@ -69,9 +81,12 @@ def newVal (regs : Nat → List Nat) (σ : Nat → List Byte) : Op → Option (L
       else none
   | .tokenS _ w seps start => (allSome (σ w)).bind fun c =>
       if 0 ∉ c ∧ start ≤ c.length then some ((tokenL c start (strpbrkL (c.drop start) seps)).map some) else none
+  | .replaceS v wn wr_ => (allSome (σ v)).bind fun c => (allSome (σ wn)).bind fun nd =>
+      if 0 ∉ c ∧ 0 ∉ nd then some (replaceAll nd (σ wr_) c) else none
+  | .replaceL v nd rp => (allSome (σ v)).bind fun c =>
+      if 0 ∉ c ∧ 0 ∉ nd then some (replaceAll nd (rp.map some) c) else none
   | .trim v chars => (allSome (σ v)).map (fun c => (trimL chars c).map some)
   | .upper v => some (mapCStr toUpper (σ v))
-  | _ => none
 
 def step (regs : Nat → List Nat) (σ : Nat → List Byte) (op : Op) : Option (Nat → List Byte) :=
   (newVal regs σ op).map (fun val => upd σ op.target val)
